@@ -59,6 +59,44 @@ pub fn eval_bytes(x: &[u8], how: &str, obs: &mut Obs) -> Result<(), Fail> {
     });
     ensure!(items.is_ok(), "streaming-does-not-terminate", "the streaming parser yielded more than {} items for {} input bytes without an error or None\ninput ({}) = {}", x.len() + 1, x.len(), how, hex_short(x, 200));
     ensure!(rep2.calls == 0, "streaming-parser-allocates", "the streaming parser performed {} heap allocations (largest {} bytes)\ninput ({}) = {}", rep2.calls, rep2.largest, how, hex_short(x, 200));
+    // the same iterator handed to a std consumer (`collect`), which sizes its allocation from the parser's
+    // size_hint(): the memory must again be proportional to the input, not to a declared length. The
+    // wrapper forwards size_hint() untouched and only bounds the number of items (termination was
+    // established above).
+    struct Capped<I> {
+        inner: I,
+        left: usize,
+    }
+    impl<I: Iterator> Iterator for Capped<I> {
+        type Item = I::Item;
+        fn next(&mut self) -> Option<I::Item> {
+            if self.left == 0 {
+                return None;
+            }
+            self.left -= 1;
+            self.inner.next()
+        }
+        fn size_hint(&self) -> (usize, Option<usize>) {
+            self.inner.size_hint()
+        }
+    }
+    let item = std::mem::size_of::<Result<sml_rs::parser::streaming::ParseEvent<'static>, sml_rs::parser::ParseError>>();
+    let collect_bound = 4 * item * (x.len() + 2) + 4096;
+    let (n_collected, rep3) = measure(|| Capped { inner: Parser::new(x), left: x.len() + 2 }.collect::<Vec<_>>().len());
+    ensure!(
+        rep3.peak_live <= collect_bound && rep3.largest <= collect_bound,
+        "collecting-streaming-events-allocates-by-declared-length",
+        "Parser::new(x).collect::<Vec<_>>() on {} input bytes ({} events of {} bytes each) requested a single allocation of {} bytes (peak live {} bytes); bound is 4*{}*(|x|+2)+4096 = {}\ninput ({}) = {}",
+        x.len(),
+        n_collected,
+        item,
+        rep3.largest,
+        rep3.peak_live,
+        item,
+        collect_bound,
+        how,
+        hex_short(x, 200)
+    );
     // classification
     let r = read_events(x, false);
     if let Some((declared, ty)) = r.overlong {
@@ -81,7 +119,7 @@ pub fn eval_bytes(x: &[u8], how: &str, obs: &mut Obs) -> Result<(), Fail> {
 
 impl Prop for C06 {
     const ID: &'static str = "C06";
-    const RULE: &'static str = "G5 with emphasis on lying TLFs: a valid three-message file (or a real meter payload) in which one TLF - at every grammar position: message list, transaction id, body list, value list, entry list, octet strings, integers - is replaced by one declaring 0..20, 2^8+-1, 2^16+-1, 2^24+-1, 2^31+-1, 2^32-3..2^32-1 or >= 2^32 (9..12 nibbles), with / without checksum fix-up; plus general G5 mutations, truncations and random bytes. Oracle: both parsers return (panic capture, crash guard: an allocation request above 1 GiB is refused exactly as a small machine would); the tracking allocator armed around complete::parse sees peak live bytes and largest single request <= 256*|x| + 4096; armed around the whole streaming iteration it sees zero allocation calls; the streaming iteration ends within |x|+2 calls. Non-trivial: the input contains a TLF declaring more than the remaining input (or more than 32 bits), or is a mutated valid file. Distinct = distinct byte strings.";
+    const RULE: &'static str = "G5 with emphasis on lying TLFs: a valid three-message file (or a real meter payload) in which one TLF - at every grammar position: message list, transaction id, body list, value list, entry list, octet strings, integers - is replaced by one declaring 0..20, 2^8+-1, 2^16+-1, 2^24+-1, 2^31+-1, 2^32-3..2^32-1 or >= 2^32 (9..12 nibbles), with / without checksum fix-up; plus general G5 mutations, truncations and random bytes. Oracle: both parsers return (panic capture, crash guard: an allocation request above 1 GiB is refused exactly as a small machine would); the tracking allocator armed around complete::parse sees peak live bytes and largest single request <= 256*|x| + 4096; armed around the whole streaming iteration it sees zero allocation calls; armed around Parser::new(x).collect::<Vec<_>>() (std sizes that vector from the parser's size_hint) it sees at most 4*sizeof(event)*(|x|+2)+4096 bytes; the streaming iteration ends within |x|+2 calls. Non-trivial: the input contains a TLF declaring more than the remaining input (or more than 32 bits), or is a mutated valid file. Distinct = distinct byte strings.";
     type Case = PCase;
     type Input = PInput;
 
